@@ -9,6 +9,10 @@ import wire
 from props import c11
 from vlib import Case
 
+# every case of this module is a direct operator / builtin / codec application whose size the oracle computes:
+# a "capacity overflow" panic is never excused here
+MEMORY_EXCLUSION_IN_UNCONSTRAINED = False
+
 RULE = ("op `builtin format <fmt> <args>` through the real VM vs the Lean model of format_buf/format_obj; the spec (Spec.Format) parses the string by the documented grammar "
         "{[index][:[[fill]<|>][width][b|o|x|X]]} and renders it (positional/indexed arguments, fill, width, justification, radix, missing argument = runtime error); "
         "all strings of <= 2 items over index/fill/width/radix/justify sets x argument lists of length 0..3, random longer strings, malformed specifiers (no-crash only); "
